@@ -139,6 +139,8 @@ def run(tier, seed, replay_path=None):
         return generic_replay(ck, replay_path)
     ck.engine()
     run_store_checks(ck, CMDS, {'value', 'flags', 'frame', 'vis', 'result', 'invariant'}, K=2, tier=tier)
+    from . import C02
+    C02.bmc_nonzero(ck, tier)
     wire_roundtrip(ck, tier)
     return ck.finish()
 
